@@ -68,6 +68,11 @@ class World:
     pass
 
 
+def any_mode(h):
+    """the margin mode is a finite enumeration: harnesses that do not depend on it prove their obligations for both values"""
+    return 'cross' if h.branch(h.bool('is_cross')) else 'isolated'
+
+
 def futures_world(h, symbols=('BTC-USDT',), leverage=None, mode='isolated', with_strategy=True, fee=None, prefix=''):
     """FuturesExchange + one Position per symbol with symbolic state."""
     r = repo()
